@@ -230,6 +230,8 @@ def reachable_tracking_variants(fn, start, avoid=()):
             discr_of.pop(l, None)
             if not st['place']['proj'] and rv['r'] == 'aggr' and rv.get('is_enum') and rv.get('variant') in _VARIANT_INDEX and rv.get('adt', '').split('::')[-1] in ('Option', 'Result'):
                 e[l] = _VARIANT_INDEX[rv['variant']]
+            elif not st['place']['proj'] and rv['r'] == 'use' and 'l' in rv['op'] and not rv['op']['proj'] and rv['op']['l'] in e:
+                e[l] = e[rv['op']['l']]          # a plain copy / move of a value of known variant
             else:
                 e.pop(l, None)
             if (rv['r'] == 'ref' and rv.get('mut')) or rv['r'] == 'rawptr':
